@@ -3,7 +3,7 @@ import SqVerif.VNetWFMerge
 L2 — `remote_merge_from` preserves well-formedness (C02): from the explicit
 description `MergeSpec` of the resulting state.
 -/
-namespace SqVerif.VNet
+namespace SqVerif.VNet.WFP
 open List
 
 /-- hypotheses under which `remote_merge_from` is called by `_two_qubit_gate` -/
@@ -506,4 +506,4 @@ theorem mergeFrom_wfp {E} {s : Net} {dst src o : Nat} {sn dn : Node} {q : SQ} {l
     { w := w, hE := hE, hsd := hsd, hsn := hsn, hdn := hdn, hor := h1, hlr := hlr, hne := hne, sp := h5 }
   exact ⟨oldR, h1, h2, h3, h4, h5, c.wfp'⟩
 
-end SqVerif.VNet
+end SqVerif.VNet.WFP
